@@ -51,6 +51,11 @@ pub const TRANSPILED_SOURCE_FILE_EXTENSION: &str = ".transpiled.mmm";
 
 pub fn is_path_a_transpiled_source(path: &str) -> bool {
     fn ends_with_ignore_case(string: &str, pat: &str) -> bool {
+        // `zip` stops at the shorter text: a name shorter than the suffix does not end in it
+        if string.chars().count() < pat.chars().count() {
+            return false;
+        }
+
         for (c1, c2) in string.chars().rev().zip(pat.chars().rev()) {
             if !c1.eq_ignore_ascii_case(&c2) {
                 return false;
